@@ -36,6 +36,10 @@ def project_probes(ctx, project):
             ctx.probe("glob_entry")
         if f.get("repeated_entry"):
             ctx.probe("repeated_file_entry")
+        if f.get("respelled"):
+            ctx.probe("respelled_path_key")
+        if f.get("glob_group"):
+            ctx.probe("recursive_glob_group")
         if f["lines"] and f["lines"][-1]["end"] == "":
             ctx.probe("no_final_newline")
         if f["lines"] and f["lines"][0]["segs"] and isinstance(f["lines"][0]["segs"][0], str) and \
